@@ -38,16 +38,39 @@ pub fn gen_c10(rng: &mut Rng, thorough: bool, emit: &mut dyn FnMut(SchedCase)) {
                     if !thorough && !rng.chance(1, 3) && !(spurious == 0 && !fresh) {
                         continue;
                     }
-                    emit(SchedCase { cap, program: prog.clone(), fresh_waker: fresh, spurious, drop_after: None,
+                    emit(SchedCase { cap, program: prog.clone(), fresh_waker: fresh, spurious, drop_after: None, probe_held: false,
                                      class: format!("S:cap={} fresh={} spurious={} prog={:?}", cap, fresh, spurious, short(&prog)) });
                 }
             }
             // the consumer drops the body after 0..2 polls (C11's concurrent part)
             if thorough || rng.chance(1, 4) {
                 for d in 0..3u32 {
-                    emit(SchedCase { cap, program: prog.clone(), fresh_waker: false, spurious: 0, drop_after: Some(d),
+                    emit(SchedCase { cap, program: prog.clone(), fresh_waker: false, spurious: 0, drop_after: Some(d), probe_held: false,
                                      class: format!("S:cap={} drop-body-after={} prog={:?}", cap, d, short(&prog)) });
                 }
+            }
+        }
+    }
+}
+
+/// Probe mode (see SchedCase::probe_held): short programs against a consumer that polls on or drops
+/// the body, with the consumer also scheduled INSIDE the producer's critical sections.
+pub fn gen_probe(emit: &mut dyn FnMut(SchedCase)) {
+    for cap in [1usize, 2] {
+        let mut progs: Vec<Vec<POp>> = vec![
+            vec![POp::Write(vec![1; cap]), POp::Write(vec![2; cap]), POp::Flush],
+            vec![POp::Write(vec![1; cap]), POp::Drop],
+            vec![POp::Write(vec![1; cap]), POp::Abort, POp::Flush],
+            vec![POp::Write(vec![1; cap]), POp::Write(vec![2; cap]), POp::Write(vec![3; cap])],
+        ];
+        if cap > 1 {
+            progs.push(vec![POp::Write(vec![1; 1]), POp::Flush, POp::Write(vec![2; 1]), POp::Flush]);
+            progs.push(vec![POp::Write(vec![1; 1]), POp::Drop]);
+        }
+        for prog in progs {
+            for d in [None, Some(0u32), Some(1)] {
+                emit(SchedCase { cap, program: prog.clone(), fresh_waker: false, spurious: 0, drop_after: d, probe_held: true,
+                                 class: format!("S:probe-held cap={} drop-body-after={:?} prog={:?}", cap, d, short(&prog)) });
             }
         }
     }
@@ -61,6 +84,7 @@ pub fn gen_c11(rng: &mut Rng, thorough: bool, emit: &mut dyn FnMut(SchedCase)) {
             emit(c)
         }
     });
+    gen_probe(emit);
 }
 
 fn short(p: &[POp]) -> Vec<String> {
